@@ -22,7 +22,9 @@ BOUNDS = (
     "just touching the image (no overlap), window overlapping by one pixel, -0.5, 0, 0.49, 0.5, interior integer / "
     "half-integer / fractional, n-1, n-0.5, n-1+w/2} per axis, with forced scenarios {first row off-image, all rows "
     "off-image, single row, empty table, duplicate rows, one row whose window ends exactly at pixel 0 (no overlap)} x model_shape given as keyword (int, (h,w), odd and even, "
-    "1), as a per-row column (ints or (h,w) pairs, also together with the keyword) or None (bounding box) x "
+    "1), as a per-row column (ints or (h,w) pairs, also together with the keyword) or None (bounding box; plus 10 "
+    "fixed cases with bbox_factor in {2, 3, None} on non-square fixed-box models (ImagePSF 5x9 / 9x11, GaussianPRF) and "
+    "on Gaussian2D, where the factor scales the box) x "
     "local_bkg column present/absent x column naming (parameter names / renamed through params_map, extra ignored "
     "columns) x discretize_method {center, interp, oversample(3,4)} (+ integrate on 2 tiny cases, thorough).  "
     "Tolerances: |image - oracle| <= 1e-13*max(1,max|oracle|) (integrate: 1e-7), permutations and vstack "
@@ -154,6 +156,8 @@ def _build_table(c, info):
         t['model_shape'] = np.array([r['ms'] for r in rows], int)
     if ms['mode'].startswith('col2'):
         t['model_shape'] = np.array([r['ms'] for r in rows], int).reshape(n, 2)
+    if ms.get('factor') is not None:
+        kw['bbox_factor'] = ms['factor']
     d = c.get('disc', 'center')
     if d != 'center':
         kw['discretize_method'] = d
@@ -196,13 +200,20 @@ def _discretise(m, js, is_, disc, os_):
     raise KeyError(disc)
 
 
-def _row_shape(m, row, msmode, kwshape):
+def _row_shape(m, row, msmode, kwshape, factor=None):
     if msmode.startswith('col'):
         v = row['ms']
         return (int(v), int(v)) if np.isscalar(v) else (int(v[0]), int(v[1]))
     if msmode == 'kw':
         return (int(kwshape), int(kwshape)) if np.isscalar(kwshape) else (int(kwshape[0]), int(kwshape[1]))
     bb = m.bounding_box.bounding_box()       # documented: the model's bounding box; ((ylo, yhi), (xlo, xhi))
+    if factor is not None:
+        # documented: bbox_factor scales the bounding box of models that accept a factor and is
+        # ignored for models whose bounding box is fixed
+        try:
+            bb = m.bounding_box(factor=factor)
+        except NotImplementedError:
+            pass
     return int(math.ceil(bb[0][1] - bb[0][0])), int(math.ceil(bb[1][1] - bb[1][0]))
 
 
@@ -266,7 +277,7 @@ def _render(c, model, t, kw):
     msmode = ms['mode'].split('+')[0]
 
     def shp(m, k, rows=rows):
-        return _row_shape(m, rows[k], msmode, ms.get('kw'))
+        return _row_shape(m, rows[k], msmode, ms.get('kw'), ms.get('factor'))
     bk = [t['local_bkg'][r] for r in range(len(t))] if 'local_bkg' in t.colnames else [0.0] * len(t)
     return _oracle(tuple(c['shape']), model, _rows_params(t, kw, model), shp, bk, c.get('disc', 'center'), c.get('os', 10))
 
@@ -629,6 +640,21 @@ def run(ctx):
             em.do({'kind': 'mmi', 'shape': [8, 9], 'model': model, 'rows': rows, 'mshape': {'mode': 'kw', 'kw': 5},
                    'bkg': bkg, 'naming': 'native', 'fwhm_col': False, 'disc': 'center', 'os': 10, 'pseed': 1},
                   'units-independent-of-first-row')
+    # bbox_factor x models with a fixed, non-square bounding box (ignored there) and with a scalable
+    # one (every tier): the window is the row's (ny, nx) box either way
+    for model, factor in (({'name': 'imagepsf', 'shape': [5, 9], 'os': 1, 'dseed': 21}, 3.0),
+                          ({'name': 'imagepsf', 'shape': [9, 11], 'os': 2, 'dseed': 11}, 2.0),
+                          ({'name': 'gprf', 'x_fwhm': 1.5, 'y_fwhm': 3.0, 'theta': 0.0}, 3.0),
+                          ({'name': 'gauss2d', 'x_stddev': 0.7, 'y_stddev': 1.6, 'theta': 0.0}, 3.0),
+                          ({'name': 'gauss2d', 'x_stddev': 0.7, 'y_stddev': 1.6, 'theta': 0.0}, None)):
+        rows = [{'x': 2.0, 'y': 3.0, 'f': 1.5, 'bkg': 0.25, 'ms': 5, 'fwhm': 2.0},
+                {'x': 9.4, 'y': 6.2, 'f': 2.0, 'bkg': 0.5, 'ms': 5, 'fwhm': 2.0},
+                {'x': -40.0, 'y': 6.0, 'f': 3.0, 'bkg': 0.75, 'ms': 5, 'fwhm': 2.0}]
+        for bkg in (False, True):
+            em.do({'kind': 'mmi', 'shape': [13, 15], 'model': model, 'rows': rows,
+                   'mshape': {'mode': 'bbox', 'factor': factor}, 'bkg': bkg, 'naming': 'native',
+                   'fwhm_col': False, 'disc': 'center', 'os': 10, 'pseed': 3},
+                  'make_model_image-superposition')
     if T:
         for model in ({'name': 'gauss2d', 'x_stddev': 1.2, 'y_stddev': 2.0, 'theta': 0.5}, {'name': 'moffat2d', 'gamma': 1.5, 'alpha': 2.5}):
             rows = [{'x': 1.3, 'y': 0.6, 'f': 2.0, 'bkg': 0.5, 'ms': 3, 'fwhm': 2.0}, {'x': -7.0, 'y': 0.6, 'f': 2.0, 'bkg': 0.5, 'ms': 3, 'fwhm': 2.0}]
